@@ -184,8 +184,8 @@ func unwrap(p pf.Player) pf.Player {
 }
 
 // plumbing methods that take a player: hand the engine its own object
-func (g *recGame) BecomeRaiser(p pf.Player) error       { return g.Game.BecomeRaiser(unwrap(p)) }
-func (g *recGame) SetCurrentPlayer(p pf.Player) error   { return g.Game.SetCurrentPlayer(unwrap(p)) }
+func (g *recGame) BecomeRaiser(p pf.Player) error         { return g.Game.BecomeRaiser(unwrap(p)) }
+func (g *recGame) SetCurrentPlayer(p pf.Player) error     { return g.Game.SetCurrentPlayer(unwrap(p)) }
 func (g *recGame) GetAllowedActions(p pf.Player) []string { return g.Game.GetAllowedActions(unwrap(p)) }
 func (g *recGame) GetAvailableActions(p pf.Player) []string {
 	return g.Game.GetAvailableActions(unwrap(p))
